@@ -43,6 +43,14 @@ type ViolationRec struct {
 	Prefix  []uint64 `json:"prefix_episode_seeds,omitempty"`
 	Shrunk  bool     `json:"shrunk,omitempty"`
 	OrigLen int      `json:"orig_tape_len,omitempty"`
+	// History replay: the violation depends on what earlier episodes of the same worker
+	// process left behind (object pools refilled by finalizers, buffers freed late). The
+	// episodes HistFrom..Index-1 of worker (WSeed, started at WFrom, GC every GCEvery
+	// episodes) are re-run from their seeds before the recorded one.
+	WSeed    uint64  `json:"worker_seed,omitempty"`
+	WFrom    uint64  `json:"worker_from,omitempty"`
+	GCEvery  uint64  `json:"gc_every,omitempty"`
+	HistFrom *uint64 `json:"history_from,omitempty"`
 }
 
 type Result struct {
@@ -121,6 +129,11 @@ func writeJSON(path string, v interface{}) {
 func gcBetween() {
 	runtime.GC()
 	runtime.GC()
+	// let the finalizer goroutine run what the collections queued (hertz finalizers put
+	// objects back into pools), so that this happens here and not somewhere inside the next episode
+	for i := 0; i < 16; i++ {
+		runtime.Gosched()
+	}
 }
 
 func TestSim(t *testing.T) {
@@ -223,7 +236,8 @@ func explore() {
 			if seenOracle[ep.Viol.Oracle] < 2 && len(res.Violations) < maxViol {
 				seenOracle[ep.Viol.Oracle]++
 				res.Violations = append(res.Violations, ViolationRec{Prop: prop, Oracle: ep.Viol.Oracle, Msg: ep.Viol.Msg, Seed: seed, Index: idx,
-					Tape: ep.Tape.Recorded(), Params: params, LogHash: fmt.Sprintf("%016x", ep.LogHash()), Prefix: append([]uint64(nil), window...)})
+					Tape: ep.Tape.Recorded(), Params: params, LogHash: fmt.Sprintf("%016x", ep.LogHash()), Prefix: append([]uint64(nil), window...),
+					WSeed: wseed, WFrom: from, GCEvery: gcEvery})
 			} else {
 				seenOracle[ep.Viol.Oracle]++
 			}
@@ -274,16 +288,34 @@ func replay() {
 		fmt.Fprintln(os.Stderr, err)
 		os.Exit(2)
 	}
-	gcBetween()
-	for _, ps := range v.Prefix {
-		runEpisode(v.Prop, ps, core.NewTape(ps), v.Params, false)
+	if v.HistFrom != nil {
+		ge := v.GCEvery
+		if ge == 0 {
+			ge = 1
+		}
+		for idx := *v.HistFrom; idx < v.Index; idx++ {
+			if (idx-v.WFrom)%ge == 0 {
+				gcBetween()
+			}
+			ps := core.SplitMix64(v.WSeed, idx)
+			runEpisode(v.Prop, ps, core.NewTape(ps), v.Params, false)
+		}
+		if (v.Index-v.WFrom)%ge == 0 {
+			gcBetween()
+		}
+	} else {
+		gcBetween()
+		for _, ps := range v.Prefix {
+			runEpisode(v.Prop, ps, core.NewTape(ps), v.Params, false)
+		}
 	}
 	tape := core.ReplayTape(v.Tape)
 	if v.Tape == nil {
 		tape = core.NewTape(v.Seed) // crash replay: only the seed is known
 	}
 	ep, _ := runEpisode(v.Prop, v.Seed, tape, v.Params, true)
-	out := ViolationRec{Prop: v.Prop, Seed: v.Seed, Index: v.Index, Tape: ep.Tape.Recorded(), Params: v.Params, LogHash: fmt.Sprintf("%016x", ep.LogHash()), Trace: ep.Log(), Prefix: v.Prefix}
+	out := ViolationRec{Prop: v.Prop, Seed: v.Seed, Index: v.Index, Tape: ep.Tape.Recorded(), Params: v.Params, LogHash: fmt.Sprintf("%016x", ep.LogHash()), Trace: ep.Log(), Prefix: v.Prefix,
+		WSeed: v.WSeed, WFrom: v.WFrom, GCEvery: v.GCEvery, HistFrom: v.HistFrom}
 	if ep.Viol != nil {
 		out.Oracle, out.Msg = ep.Viol.Oracle, ep.Viol.Msg
 	}
